@@ -2,6 +2,7 @@
 use crate::ctx::{Ctx, Outcome, Tier};
 use serde_json::Value;
 
+pub mod c01;
 pub mod c20;
 
 pub trait Prop {
@@ -36,7 +37,7 @@ pub trait Prop {
 }
 
 pub fn all() -> Vec<Box<dyn Prop>> {
-    vec![Box::new(c20::C20)]
+    vec![Box::new(c01::C01), Box::new(c20::C20)]
 }
 
 pub fn lookup(id: &str) -> Option<Box<dyn Prop>> {
